@@ -166,6 +166,26 @@ def check_scalar(res, facts):
             rule.ok(key, "as_ref() of the scalar reaches cyclotomic_exp unmodified", fn.loc)
 
 
+def check_scalar_mlo(res, facts):
+    """A Miller-loop value is a general element of the target field; the cyclotomic kernels (compressed squaring, conjugate as
+    inverse) are only valid after the easy part of the final exponentiation.  Who-may-call: no method whose receiver type is
+    MillerLoopOutput calls a cyclotomic_* kernel; its scalar multiplication uses the generic pow."""
+    rule = res.rule("R-SCALAR.mlo", "operations on MillerLoopOutput never use the cyclotomic-subgroup kernels (their value is not in the cyclotomic subgroup before the final exponentiation)", 1)
+    n = 0
+    for fn in facts.fns(unit="ws", crate="ark_ec"):
+        if fn.self_head != "ark_ec::pairing::MillerLoopOutput" or "::tests::" in fn.id:
+            continue
+        n += 1
+        cyc = sorted({t["f"].get("name") for _, t in fn.calls() if (t["f"].get("name") or "").startswith("cyclotomic_")})
+        if cyc:
+            rule.bad("ark_ec|MillerLoopOutput::%s" % fn.name, "calls %s on a Miller-loop value: the cyclotomic shortcuts are wrong outside the cyclotomic subgroup, so (f * s) followed by final_exponentiation is not e(P,Q)^s" % "/".join(cyc), fn.loc)
+        elif fn.name == "mul":
+            has_pow = any(t["f"].get("name") in ("pow", "pow_with_table") for _, t in fn.calls())
+            (rule.ok if has_pow else rule.bad)("ark_ec|MillerLoopOutput::mul", "generic pow" if has_pow else "no generic exponentiation (pow) call", fn.loc)
+    if n == 0:
+        rule.bad("ark_ec|MillerLoopOutput", "anchor missing: no method with receiver MillerLoopOutput found")
+
+
 def check_prepared(res, facts):
     """every conversion into G1Prepared / G2Prepared from a projective point or from a reference goes through the one
     affine constructor: `q.into_affine().into()` / `(*q).into()`.  (A twin that normalises by hand can disagree with
@@ -284,6 +304,7 @@ def run(ctx, res):
     check_loopbits(res, facts)
     check_finalexp(res, facts)
     check_scalar(res, facts)
+    check_scalar_mlo(res, facts)
     check_prepared(res, facts)
     check_signfix(res, facts)
     from rules import c06_finalexp
